@@ -426,7 +426,10 @@ pub fn run(tier: Tier, seed: u64) -> i32 {
             }
             fams.push(f);
         }
-        for (fi, fam) in fams.iter().enumerate() {
+        par_cases(fams.len() as u64, threads(), |fi| {
+            let fi = fi as usize;
+            let fam = &fams[fi];
+            let mut rng = case_rng(seed, "C03.labels.family", fi as u64);
             let mut made: Vec<(Vec<u8>, common::Compiled, Vec<u8>, Vec<u8>, Vec<BlsScalar>)> = Vec::new();
             for l in fam {
                 match common::compile(&pp, l, &s.prog) {
@@ -457,7 +460,7 @@ pub fn run(tier: Tier, seed: u64) -> i32 {
                 }
             }
             ev.set_insert("label_family_prefix_lengths", fam.iter().map(|l| l.len()).min().unwrap_or(0));
-        }
+        });
     }
 
     ev.floor("label-family triples", ev.bucket_get("kind.label-family"), 800);
